@@ -17,6 +17,12 @@ CLAIMS['C06'] = dict(text='Compositional bounded model checking: structure - eac
              note='Numbers are delegated to C09; duplicate-key replacement to C13 (real HArray). Structure queries use recording stand-ins for Value/containers (the real container-kind Value is beyond reach of CBMC on this image). N = 4 (quick) / 6 (thorough).', ref='6/C06')
 CLAIMS['C01'] = dict(text='Bounded model checking of the template tag matcher (one Finder::Next step from an arbitrary cursor, with its progress/position contract) and of the attribute scanners (parseIfCase, parseLoopAttributes, checkLoopVariable) alone over exact-size fully symbolic buffers under the caller contract: every read inside the buffer, slices recorded in tag records inside the buffer, termination within the bound. The expression scanners are covered under C04.',
              note='PARTIAL: the scanner driver TemplateCore::parse and the renderer over symbolic template text are out of reach of the bounded model checker on this image (one symbolic template byte or a symbolic truncation length: no verdict in 300 s) and are NOT covered; bounds N = 6 (quick) / 9 (thorough).', ref='6/C01')
+CLAIMS['C03'] = dict(text='Bounded model checking of the real HTML escaper over every string up to N units and every code-unit value (3 widths): the emitted unit sequence is in (plain | &amp; | &lt; | &gt; | &quot; | &apos;)* (no raw specials, & only as an entity start), decode(out) == decode(in) in lockstep with a reference decoder, every word of that language is a fixed point (idempotence), output length within [L, 6L], reads inside the buffer, destination prefix preserved.',
+             note='PARTIAL: string level only. The routing clauses ({var:}/{raw:}/{svar:}/loop key/fallback echo go through the escaper; auto-escape off) need the template renderer, which is out of reach of the model checker here (see C01). N = 6 (quick) / 8 (thorough). Observer-stream and FixedStream stand-ins for the stream parameter.', ref='6/C03')
+CLAIMS['C08'] = dict(text='Bounded model checking of the real JSON string escaper and un-escaper: for every string up to N units (3 widths) the escaped text contains no raw unit below 0x20, no unescaped quote and only valid escapes, and UnEscape(Escape(s)) reproduces s; plus (when present) Stringify of scalar / string / array roots of the real Value against the document model.',
+             note='PARTIAL: object-kind trees and whole-tree Stringify->Parse composition are not covered (real HArray<String,Value> is beyond reach of CBMC here); number digits are delegated to C10/C09. N = 4 (quick) / 6 (thorough).', ref='6/C08')
+CLAIMS['C14'] = dict(text='One inductive step per operation on pre-states built through the public API with concrete capacity and symbolic size/contents/arguments, including aliasing arguments: every public operation of Array<int>, Array<Tracked>, String, StringStream, StringView (3 widths) agrees with a plain sequence model (contents, length, terminator, no element lost/duplicated/destroyed twice), and Memory::Copy / SetToZero equal the byte-wise definition for every length 0..80 with guard bytes, in scalar, SSE2 and AVX2 builds.',
+             note='Bounded: capacities <= 4 (streams 8), argument lengths <= 3, copy lengths <= 80 bytes. Containers in the scalar build (SIMD builds differ only inside Memory::Copy/SetToZero, checked separately). The quick tier runs one representative per (container, type, operation) group plus a deterministic twelfth of the other variants; thorough runs all 5649.', ref='6/C14')
 NA = {}
 def main():
     props = [json.loads(l)['id'] for l in open(os.path.join(ROOT, 'properties.jsonl'))]
